@@ -137,6 +137,7 @@ def signatures(case, obs):
             if any(len(_values_kinds(v)) > 1 for v in cols.values()):
                 sig.add("mixed-int-float-column")
         else:
+            rowfields = {}
             for item, top in _items_of(r["payload"]):
                 m = item.get(b"m")
                 if b"columns" in item and isinstance(item[b"columns"], tuple) and item[b"columns"][0] == "m":
@@ -148,7 +149,16 @@ def signatures(case, obs):
                             sig.add("routing-key-column")
                         if any(n in (b"database", b"measurement", b"m") for n in cols):
                             sig.add("legacy-key-column")
-                        sig.add("row-replay-time-outside-us-window")      # unit of the client's time column is arbitrary
+                        tc = cols.get(b"time")
+                        if isinstance(tc, tuple) and tc[0] == "a" and tc[1] and all(isinstance(x, tuple) and x[0] in ("i", "ic") for x in tc[1]):
+                            first = tc[1][0][1]
+                            mult = 1000000 if first < 10 ** 10 else 1000 if first < 10 ** 13 else 1 if first < 10 ** 16 else None
+                            for x in tc[1]:
+                                us = x[1] * mult if mult else int(x[1] / 1000)
+                                if not (10 ** 13 <= us < 10 ** 16):
+                                    sig.add("row-replay-time-outside-us-window")
+                        else:
+                            sig.add("row-replay-time-outside-us-window")      # generated or non-integer time
                     for v in cols.values():
                         if isinstance(v, tuple) and v[0] == "a" and len(_values_kinds(v[1])) > 1:
                             sig.add("mixed-int-float-column")
@@ -161,8 +171,20 @@ def signatures(case, obs):
                         sig.add("routing-key-column")
                     if any(n in (b"database", b"measurement", b"m") for n in names):
                         sig.add("legacy-key-column")
-                    sig.add("row-replay-time-outside-us-window")
-                    sig.add("mixed-int-float-column")                 # several rows of one group may mix kinds
+                    t = item.get(b"t")
+                    if isinstance(t, tuple) and t[0] in ("i", "ic"):
+                        ts = t[1]
+                        us = ts * 1000000 if ts < 10 ** 10 else ts * 1000 if ts < 10 ** 13 else ts if ts < 10 ** 16 else int(ts / 1000)
+                        if not (10 ** 13 <= us < 10 ** 16):
+                            sig.add("row-replay-time-outside-us-window")
+                    else:
+                        sig.add("row-replay-time-outside-us-window")
+                    if b"fields" in item and isinstance(item[b"fields"], tuple) and item[b"fields"][0] == "m":
+                        mm = m[1] if isinstance(m, tuple) else None
+                        for k, v in item[b"fields"][1]:
+                            rowfields.setdefault((mm, k), []).append(v)
+            if any(len(_values_kinds(v)) > 1 for v in rowfields.values()):
+                sig.add("mixed-int-float-column")
     if any(a >= 500 for a in obs["acks"]):
         sig.add("rejected-write-poisons-wal-file")
     return sig
